@@ -20,6 +20,8 @@ def rule_id_charset(ctx, rid="C13.ID-CHARSET"):
 
 def check(rep):
     ctx = Ctx(rep)
+    if rep.tier == "thorough":
+        LR.validate_engine(ctx)
     rule_id_charset(ctx)
     PR.rule_compiles(ctx, rid="C13.SHAPE-COMPILES", strict=False)
     PR.rule_renderers(ctx, rid="C13.TAINT", kinds=("str",), extra_safe=("json",))
